@@ -95,6 +95,12 @@ fn main() {
 
         println!("  Selected URIs:");
         for uri in next_patches.uris() {
+            if patch_data.contains_key(uri) {
+                // Already fetched in an earlier iteration. Keep its status: a URI that has been
+                // applied must never be applied again (re-inserting it as pending would let a patch
+                // that leaves its mapping entry unapplied be selected and applied forever).
+                continue;
+            }
             println!("    fetching {}", uri);
             let uri_path = args.font.parent().unwrap().join(uri);
             let patch_bytes = std::fs::read(uri_path.clone()).unwrap_or_else(|e| {
